@@ -170,6 +170,8 @@ def entry_scenarios(tier, what):
         for d, q, dd, qd in combos:
             for st in ("bilinear", "record"):
                 out.append("entry2d data=%s q=%s ddyn=%d qdyn=%d strat=%s" % (d, q, dd, qd, st))
+    if what == "shim":
+        out.append("shim")
     if what.startswith("oracle:"):
         _, prop, unit = what.split(":", 2)
         out.append("oracle prop=%s unit=%s" % (prop, unit))
